@@ -24,7 +24,7 @@ from harness.common import lean, pya
 PROP = "C19"
 LEAN_PROP = "PyaModel.Props.C19"
 NAMESPACE = "Pya.C19"
-LEAN_TARGETS = ["PyaModel.Spec.OpsSpec", "PyaModel.Generated.OpTables"]
+LEAN_TARGETS = ["PyaModel.Spec.OpsSpec", "PyaModel.Generated.OpTables", "PyaModel.Generated.AttrTables"]
 _ANCHORS = [
     ("pyanalyze/implementation.py", "_sequence_common_getitem_impl"),
     ("pyanalyze/name_check_visitor.py", "NameCheckVisitor._visit_binop_no_mvv"),
@@ -356,7 +356,7 @@ def attr_fact_bits(o, name, src):
     3 class operand with a closed attribute set          4 hooked by pyanalyze's default KnownAttributeHook (sys.modules)
     5 operand is a class   6 operand is a module   7 module operand and the name is in its __annotations__
     8 type(operand) has __getattr__   9 class operand and the name is in the __dict__ of a class of its MRO
-    10 class operand that is an Enum subclass"""
+    10 class operand that is an Enum subclass   11 class operand, the stubs of its MRO declare the name as variable/property"""
     import inspect
     fl = int(name in IGNORED_END) + 2 * int(_dotted(src))
     if isinstance(o, type):
@@ -382,7 +382,38 @@ def attr_fact_bits(o, name, src):
             fl += 16
     if type_lookup(type(o), "__getattr__") is not None:
         fl += 256
+    if isinstance(o, type) and stub_declares(o, name):
+        fl += 2048
     return fl
+
+
+_RESOLVER = []
+
+
+def stub_declares(cls, name):
+    """typeshed (through typeshed_client, the stub data pyanalyze also reads) declares `name` in the body of a class of
+    the MRO as a variable (`x: T`) or a property. Stubs are input data, not pyanalyze code."""
+    import ast as _ast
+    import typeshed_client
+    if not _RESOLVER:
+        _RESOLVER.append(typeshed_client.Resolver())
+    for k in cls.__mro__:
+        try:
+            info = _RESOLVER[0].get_fully_qualified_name("%s.%s" % (k.__module__, k.__qualname__))
+        except Exception:
+            continue
+        kids = getattr(info, "child_nodes", None)
+        if kids and name in kids:
+            node = kids[name].ast
+            if isinstance(node, _ast.AnnAssign):
+                return True
+            if isinstance(node, typeshed_client.OverloadedName):
+                return False
+            if isinstance(node, (_ast.FunctionDef, _ast.AsyncFunctionDef)):
+                return any(w in _ast.unparse(d) for d in node.decorator_list
+                           for w in ("property", "_magic_enum_attr", "DynamicClassAttribute"))
+            return False
+    return False
 
 
 def closed_class(o):
@@ -513,7 +544,7 @@ def attr_pair_in_scope(o, name):
             v = getattr(o, name)
         except Exception:
             return True
-        return isinstance(v, _STABLE) and name not in ("argv", "path", "last_traceback", "last_value", "last_type", "last_exc")
+        return (name == "modules" or isinstance(v, _STABLE)) and name not in ("argv", "path", "last_traceback", "last_value", "last_type", "last_exc")
     return True
 
 
@@ -717,6 +748,7 @@ def translate(ctx):
     top += ["end Pya.C19", ""]
     lean.write_if_changed(os.path.join(GEN, "OpTables.lean"), "\n".join(top))
     ctx.extra["table_rows"] = n
+    translate_attr(ctx)
 
 
 def _and_tree(names):
@@ -893,7 +925,8 @@ def evaluate_rows(ctx, entries, ns, tag, with_model=True, binop_sample=None):
             if not ok:
                 ctx.disagree("binop", {"expr": e["expr"], "sides": line}, "pyanalyze p=%s lit=%s" % (p, plit), out)
     # attribute fallback stream: rows where CPython raises AttributeError and pyanalyze itself found nothing
-    attrs = [i for i, e in enumerate(entries) if e["case"][0] == "attr" and e["row"][7] == 2 and not (e["row"][6] & 4)]
+    attrs = [i for i, e in enumerate(entries) if e["case"][0] == "attr" and e["row"][7] == 2
+             and not (e["row"][6] & (4 | 2048 | 16 | 128)) and not ((e["row"][6] & 32) and (e["row"][6] & 512))]
     attr_conf = {}
     if with_model and attrs:
         facts = attr_unit_facts(ns, [entries[i] for i in attrs])
@@ -1159,6 +1192,12 @@ def _run(ctx, with_model):
     rows = quick_table()
     ctx.extra["exhaustive_part"] = "%d table rows (whole quick universe of %d operands)" % (len(rows), len(QUICK_OPERANDS))
     evaluate_rows(ctx, rows, _STATE["ns"], "table", with_model, binop_sample=ctx.n(1500, 100000))
+    # the attribute table: re-computed rows (quick: stratified sample + special names; thorough: all of it)
+    if "attr_rows" not in _STATE:
+        translate_attr(ctx)
+    evaluate_rows(ctx, _STATE["attr_rows"], ns, "attrtab", with_model)
+    ctx.extra["exhaustive_part"] += "; attribute table: %d operands x %d names, %d rows re-computed this run" % (
+        len(ATTR_OPERANDS), len(attr_universe()[1]), len(_STATE["attr_rows"]))
     # seeded random literals
     ops, cases = random_cases(ctx.rng, ctx.n(1500, 20000))
     it, iv = Interner(), Interner()
